@@ -3,8 +3,8 @@
 PROPS = {
     "C18": {
         "modules": ["Cose.Props.C18", "Cose.Props.CwtEndToEnd"],
-        "families": ["cwt"],
-        "spec_ops": ["cwt.spec"],
+        "families": ["cwt", "claims"],
+        "spec_ops": ["cwt.spec", "claims.enc"],
         "n_quick": 20000, "n_thorough": 2000000,
         "rule": "boundary lattice {0,1,now±skew±1,2^31,2^32,2^62,2^63-62135596800±1,2^63-1,2^63,2^64-1,…}^3 x flags x skews "
                 "(half of the stream near-valid) from one PRNG seed; each case run as cwt.validatemap (mirror), "
@@ -26,7 +26,7 @@ PROPS = {
     "C08": {
         "modules": ["Cose.Props.C08"],
         "families": ["cbor", "map", "msg:wrongtype", "msg:gomap"],
-        "spec_ops": ["cbor.enc", "wire.wrongtype", "wire.badbucket", "wire.badpayload", "cbor.encdup"],
+        "spec_ops": ["cbor.enc", "wire.wrongtype", "wire.badbucket", "wire.badpayload", "cbor.encdup", "wire.msgdup"],
         "n_quick": 8000, "n_thorough": 200000,
         "rule": "cbor.enc: random Go values (all integer kinds, nil/empty slices, nested CoseMaps of 0..320 int/text labels) encoded by the "
                 "library vs the Lean deterministic encoder; cbor.dec / map.unmarshal: random CBOR trees written by an independent "
@@ -72,7 +72,7 @@ PROPS = {
         "assumptions": ["the chunking law of the Go reader is established by correspondence (random chunkings), the prefix and limit laws by theorem"],
     },
     "C01": {
-        "modules": ["Cose.Props.C01", "Cose.Props.C01Enc", "Cose.Props.CwtEndToEnd"], "families": ["msg:C01"], "spec_ops": [],
+        "modules": ["Cose.Props.C01", "Cose.Props.C01Enc", "Cose.Props.CwtEndToEnd"], "families": ["msg:C01", "msg:C06", "conv"], "spec_ops": ["conv.keyset", "conv.ed25519", "conv.ecdsa", "conv.ecdh", "conv.gen"],
         "n_quick": 500, "n_thorough": 60000,
         "rule": "6 kinds x 24 algorithms x payload {nil, empty, raw of every CBOR length class, pre-encoded CBOR, typed map} x header maps (int/text labels; int, bstr, tstr, bool, array, nested-map values) "
                 "x external data {nil, empty, random} x 1-3 signers / 1-3 recipients incl. one nesting level; each produced message consumed tagged, untagged and CWT-tagged; "
@@ -81,7 +81,7 @@ PROPS = {
         "assumptions": ["signature correctness (SigCorrect) for ECDSA / Ed25519: assumed in the theorem, cross-checked by the Lean EC reference in the run"],
     },
     "C02": {
-        "modules": ["Cose.Props.C02", "Cose.Props.History"], "families": ["msg:C02"], "spec_ops": [],
+        "modules": ["Cose.Props.C02", "Cose.Props.History"], "families": ["msg:C02", "conv"], "spec_ops": ["conv.keyset", "conv.ed25519", "conv.ecdsa", "conv.ecdh", "conv.gen"],
         "n_quick": 400, "n_thorough": 50000,
         "rule": "valid Sign1/Sign/Mac0/Mac messages, then per message 4 alterations: bit flip at a random position, truncation, trailing byte, byte replacement, other external data, "
                 "other key, splice of one top-level member from an independently produced message, change of kind (tag/prefix swap); model (with Lean HMAC/CBC-MAC/ECDSA/Ed25519) predicts accept/reject exactly",
@@ -89,7 +89,7 @@ PROPS = {
         "assumptions": ["existential unforgeability of the primitives is assumed; the theorems reduce acceptance of a changed authenticated item to a forgery"],
     },
     "C03": {
-        "modules": ["Cose.Props.C03", "Cose.Props.History"], "families": ["msg:C03", "prim:aead"], "spec_ops": [],
+        "modules": ["Cose.Props.C03", "Cose.Props.History"], "families": ["msg:C03", "prim:aead", "msg:C06"], "spec_ops": [],
         "n_quick": 400, "n_thorough": 50000,
         "rule": "valid Encrypt0/Encrypt messages over 12 AEADs, then alterations as for C02 (ciphertext, IV, protected bytes, prefix, shape, key, external data); after a failed Decrypt the harness "
                 "inspects the message object's Payload (PAYLOAD-LEAKED is reported if it is not the zero value)",
@@ -106,7 +106,7 @@ PROPS = {
         "assumptions": [],
     },
     "C05": {
-        "modules": ["Cose.Props.C05"], "families": ["msg:C05", "msg:C04"], "spec_ops": [],
+        "modules": ["Cose.Props.C05"], "families": ["msg:C05", "msg:C04", "map"], "spec_ops": [],
         "n_quick": 300, "n_thorough": 40000,
         "rule": "per case: a produce with the protected alg given as int / int64 / key.Alg / other width / another registered alg / text / nil / out-of-range; a produce with nil headers (defaults recorded) and its consume; "
                 "a consume with a key of another algorithm sharing the key bytes where the family allows (HMAC 256/64 vs 256/256, AES-MAC, CCM, GCM); a message without protected alg",
@@ -114,7 +114,7 @@ PROPS = {
         "assumptions": [],
     },
     "C06": {
-        "modules": ["Cose.Props.C06"], "families": ["msg:C06"], "spec_ops": [],
+        "modules": ["Cose.Props.C06"], "families": ["msg:C06", "prim:aead"], "spec_ops": ["wire.msgdup"],
         "n_quick": 500, "n_thorough": 60000,
         "rule": "Encrypt0/Encrypt x 12 AEADs x unprotected {none, IV of length n-1,n,n+1,1,0, Partial IV of length 0..n+2, both, ill-typed} x key Base IV {absent, right length, wrong lengths, ill-typed}; "
                 "recording Encryptor exposes the nonce on Encrypt and Decrypt; random nonces must be published in header 5 with the algorithm's length",
